@@ -81,6 +81,11 @@ def run_canon(c):
         except Exception:
             vals.append(None)
     out['G'] = vals
+    try:
+        import impl_formul_circuit as IC
+        out['printed'] = IC.ss_printed(ss)
+    except Exception as e:
+        out['printed_error'] = type(e).__name__ + ': ' + str(e)[:100]
     if c['form'] == 'DCF':
         try:
             from lcapy.sexpr import tf
